@@ -102,7 +102,9 @@ UNIT = Unit(
 def native(workdir):
     """bounded search on the REAL crates through parse -> reconcile (replay binary): every acyclic reference graph on 2..3 items x 12
     reference positions x 4 item shapes x every non-empty subset of the items (and the generic wrapper) carrying serde(rename); after
-    reconcile_aliases no type expression may still mention the Rust name of a same-file type that is defined under another name."""
+    reconcile_aliases no type expression may still mention the Rust name of a same-file type that is defined under another name; plus three
+    fixed programs (a type imported from another crate where it is serde-renamed, with and without a rename in the importing crate;
+    serialized_as combined with rename_all)."""
     import os
     import kf_replay
     exe = kf_replay.replay_bin()
@@ -116,4 +118,6 @@ def native(workdir):
 
 
 def replay_args(inp):
+    if 'extra_program' in inp:
+        return ['extra', str(inp['extra_program'])]
     return [str(inp['items']), str(inp['edges_code']), str(inp['wrapper']), str(inp['holder']), str(inp['renamed_mask'])]
